@@ -144,7 +144,9 @@ ConvNames == {"from_level", "into_level", "from_option", "as_log_level", "as_tra
               "as_log_filter", "as_trace_filter"}
 ConvDomain(n) == IF n \in {"from_level", "as_log_level", "as_trace_level"} THEN LevelRanks ELSE FilterRanks
 ConvCases == { [k |-> "conv", f |-> n, v |-> v] : n \in ConvNames, v \in FilterRanks }
-SetMaxCases == { [k |-> "setmax", v |-> v] : v \in FilterRanks }
+\* the value is published by a hand-written collector's hint, by tracing-subscriber's LevelFilter used as a layer on a
+\* Registry, or by fmt().with_max_level(..)
+SetMaxCases == { [k |-> "setmax", v |-> v, via |-> x] : v \in FilterRanks, x \in {"collector", "layer", "fmt"} }
 \* a history of two publications in one process: the value read back is the LAST one published
 \* (MAX_LEVEL is process-global state; `w` is published first, then `v`)
 SetMax2Cases == { [k |-> "setmax2", w |-> w, v |-> v] : w \in FilterRanks, v \in FilterRanks }
